@@ -216,6 +216,75 @@ pub fn run(o: &DriveOpts, out: &mut dyn Write, tid: usize) -> Value {
         }
     }
 
+    if profile == "merge" {
+        // at most N distinct labels in play, so that no merged vertex can exceed the edge capacity
+        let labels: Vec<String> = labels.iter().take(o.n.max(1)).cloned().collect();
+        // rounds of: a random tree g on handle 0, a random tree h (+ sometimes extras) on handle 1, merge, reads
+        let tree = |rng: &mut StdRng, rec: &mut Recorder, w: &mut World, h: usize, size: usize, extras: usize| -> (bool, Vec<usize>) {
+            let mut ok = rec.call(w, HCall { h, call: Call::New { n: o.n, cap: o.cap } });
+            let mut ids: Vec<usize> = (0..win).collect();
+            ids.shuffle(rng);
+            let verts: Vec<usize> = ids.iter().copied().take(size).collect();
+            let ext: Vec<usize> = ids.iter().copied().skip(size).take(extras).collect();
+            for v in verts.iter().chain(ext.iter()) {
+                ok = ok && rec.call(w, HCall { h, call: Call::Add { v: *v } });
+            }
+            let mut used: BTreeMap<usize, Vec<String>> = BTreeMap::new();
+            for i in 1..verts.len() {
+                // parent among the earlier ones that still has a free label
+                let cands: Vec<usize> = verts[..i].iter().copied().filter(|p| used.get(p).map(|u| u.len()).unwrap_or(0) < o.n.min(labels.len())).collect();
+                let Some(par) = cands.choose(rng).copied() else { break };
+                let u = used.entry(par).or_default();
+                let free: Vec<&String> = labels.iter().filter(|l| !u.contains(l)).collect();
+                let a = (*free.choose(rng).unwrap()).clone();
+                u.push(a.clone());
+                ok = ok && rec.call(w, HCall { h, call: Call::Bind { v1: par, v2: verts[i], a } });
+            }
+            for v in verts.iter().chain(ext.iter()) {
+                if rng.gen_bool(0.5) {
+                    ok = ok && rec.call(w, HCall { h, call: Call::Put { v: *v, d: datas.choose(rng).unwrap().clone() } });
+                }
+            }
+            // read some data before the merge (only while the vertex is still present)
+            for v in verts.iter() {
+                if rng.gen_bool(0.2) && w.g(h).keys().unwrap_or_default().contains(v) {
+                    ok = ok && rec.call(w, HCall { h, call: Call::Data { v: *v } });
+                }
+            }
+            (ok, verts)
+        };
+        while ok && rec.events < o.steps {
+            let gs = rng.gen_range(1..=7usize.min(win));
+            let hs = rng.gen_range(1..=7usize.min(win));
+            let ex = if rng.gen_bool(0.25) { rng.gen_range(1..=2) } else { 0 };
+            let (ok1, gv) = tree(&mut rng, &mut rec, &mut w, 0, gs, 0);
+            let (ok2, hv) = tree(&mut rng, &mut rec, &mut w, 1, hs, ex);
+            ok = ok1 && ok2;
+            if !ok {
+                break;
+            }
+            let present0 = w.g(0).keys().unwrap_or_default();
+            let present1 = w.g(1).keys().unwrap_or_default();
+            let lefts: Vec<usize> = gv.iter().copied().filter(|v| present0.contains(v)).collect();
+            if lefts.is_empty() || !present1.contains(&hv[0]) {
+                continue;
+            }
+            let left = *lefts.choose(&mut rng).unwrap();
+            ok = rec.call(&mut w, HCall { h: 0, call: Call::Merge { src: 1, left, right: hv[0] } });
+            // reads (and a few puts) afterwards
+            for _ in 0..rng.gen_range(2..10) {
+                if !ok {
+                    break;
+                }
+                let pres = w.g(0).keys().unwrap_or_default();
+                let Some(v) = pres.choose(&mut rng).copied() else { break };
+                let c = if rng.gen_bool(0.8) { Call::Data { v } } else { Call::Put { v, d: datas.choose(&mut rng).unwrap().clone() } };
+                ok = rec.call(&mut w, HCall { h: 0, call: c });
+            }
+        }
+        return json!({"t": tid, "profile": o.profile, "n": o.n, "cap": o.cap, "seed": o.seed, "events": rec.events, "panicked": !ok});
+    }
+
     // random part ----------------------------------------------------------------------
     let mut twin_alive = false;
     let mut twin_is_clone = false;
